@@ -107,6 +107,9 @@ class Rec(asyncio.Protocol):
 
     def connection_made(self, t: Any) -> None:
         self.t = t
+        sk = t.get_extra_info('socket')
+        if sk is not None and sk.family in (socket.AF_INET, socket.AF_INET6):
+            sk.setsockopt(socket.IPPROTO_TCP, socket.TCP_NODELAY, 1)     # no Nagle delays in the harness's ends
         self.registry.append(self)
 
     def data_received(self, d: bytes) -> None:
@@ -219,6 +222,7 @@ async def connect_raw(addr: Any) -> EndA:
         sk = socket.socket(socket.AF_UNIX, socket.SOCK_STREAM)
     else:
         sk = socket.socket(socket.AF_INET, socket.SOCK_STREAM)
+        sk.setsockopt(socket.IPPROTO_TCP, socket.TCP_NODELAY, 1)
     sk.setblocking(False)
     await asyncio.wait_for(loop.sock_connect(sk, addr), WAIT * 5)
     return EndA(sk)
@@ -248,7 +252,9 @@ class Scenario:
 
     KINDS = ['local_port', 'local_path', 'remote_port', 'remote_path', 'socks', 'local_port_to_path']
 
-    def __init__(self, kind: str, script: List[str], tmp: str, payload: Callable[[int], bytes]):
+    def __init__(self, kind: str, script: List[str], tmp: str, payload: Callable[[int], bytes],
+                 must: Optional[Dict[str, int]] = None):
+        self.must = must or {'a2b': 0, 'b2a': 0}      # bytes that have to arrive (the run waits for them, bounded)
         self.kind = kind
         self.script = script
         self.tmp = tmp
@@ -413,6 +419,16 @@ class Scenario:
             hub.auto = True
             hub.kick()
         await quiesce()
+
+        def arrived() -> bool:
+            if a is not None:
+                a.pump()
+            r0 = b()
+            ok_b = r0 is None or r0.lost or len(r0.data) >= min(self.must['a2b'], len(sent_a))
+            ok_a = a is None or a.closed or a.lost or a.eof or \
+                len(a.data) - skip_a >= min(self.must['b2a'], len(sent_b))
+            return ok_a and ok_b
+        await wait_until(arrived)
         if a is not None:
             a.pump()
         obs['sent_a'] = bytes(sent_a)
